@@ -15,11 +15,16 @@ import (
 )
 
 func init() {
-	Register(&Prop{ID: "C12", Gen: c12Gen, New: func() Runner { return c12Runner{} }})
+	Register(&Prop{ID: "C12", Gen: c12Gen, New: func() Runner { return &c12Runner{} }})
 }
 
 func c12Gen(g *Gen) {
 	for i := 0; i < g.N; i++ {
+		// a case = a history of 16 ops in one process state (transactions created in it are
+		// held and re-checked after the later ops of the case)
+		if i%16 == 0 {
+			g.Emit("reset")
+		}
 		switch g.Intn(10) {
 		case 0, 1, 2, 3:
 			t := c12NewTx(g, g.Intn(3) == 0)
@@ -71,7 +76,67 @@ func c12Gen(g *Gen) {
 
 var c12BigLit = regexp.MustCompile(`[:\[,][ \t\r\n]*-?[0-9]{16,}`)
 
-type c12Runner struct{}
+// c12Held: a transaction object kept alive across later operations, with a
+// snapshot of everything observable taken right after it was created.
+type c12Held struct {
+	tx     module.Transaction
+	src    string
+	id     []byte
+	bytes  []byte
+	fields []string
+	verify string
+	age    int
+}
+
+type c12Runner struct {
+	held []*c12Held
+}
+
+func (r *c12Runner) hold(tx module.Transaction, f []string, src string) {
+	h := &c12Held{tx: tx, src: src, fields: f, verify: c12VerifyStr(tx)}
+	h.id = append([]byte{}, tx.ID()...)
+	if b := tx.Bytes(); b != nil {
+		h.bytes = append([]byte{}, b...)
+	}
+	r.held = append(r.held, h)
+}
+
+// recheck: every held transaction must still be what it was, whatever was
+// parsed / serialised / verified in between (no shared or pooled buffers, no
+// stale caches): Bytes(), ID() on every later op; full reload + Verify at
+// ages 1, 2, 5 and 12 (then it is released).
+func (r *c12Runner) recheck(o *Oracle) {
+	keep := r.held[:0]
+	for _, h := range r.held {
+		h.age++
+		b := h.tx.Bytes()
+		okb := (b == nil && h.bytes == nil) || bytes.Equal(b, h.bytes)
+		o.Check(okb, "held-transaction-bytes-change", "%s: Bytes() of a held transaction changed after %d later ops: was %q now %q", h.src, h.age, h.bytes, b)
+		o.Check(bytes.Equal(h.tx.ID(), h.id), "held-transaction-id-changes", "%s: ID() %x -> %x after %d later ops", h.src, h.id, h.tx.ID(), h.age)
+		if h.age == 1 || h.age == 2 || h.age == 5 || h.age == 12 {
+			o.Count("held-full-recheck")
+			f2, _, _ := transaction.VerifC12Fields(h.tx)
+			o.Check(strings.Join(f2, "|") == strings.Join(h.fields, "|"), "held-transaction-fields-change", "%s: fields %v -> %v", h.src, h.fields, f2)
+			o.Check(c12VerifyStr(h.tx) == h.verify, "held-transaction-verify-changes", "%s: Verify %s -> %s", h.src, h.verify, c12VerifyStr(h.tx))
+			if b != nil {
+				tx2, err := transaction.NewTransaction(append([]byte{}, b...))
+				if c12Check(o, err == nil, "held-transaction-reload-fails", "%s: NewTransaction(Bytes()) of a held transaction fails after %d later ops: %v; bytes %q", h.src, h.age, err, b) {
+					o.Check(bytes.Equal(tx2.ID(), h.id), "held-transaction-reload-id-differs", "%s: reload after %d later ops has id %x, was %x", h.src, h.age, tx2.ID(), h.id)
+					f3, _, _ := transaction.VerifC12Fields(tx2)
+					o.Check(strings.Join(f3, "|") == strings.Join(h.fields, "|"), "held-transaction-reload-fields-differ", "%s: reload fields %v, were %v", h.src, f3, h.fields)
+					o.Check(c12VerifyStr(tx2) == h.verify, "held-transaction-reload-verify-differs", "%s: reload Verify %s, was %s", h.src, c12VerifyStr(tx2), h.verify)
+				}
+			}
+		}
+		if h.age < 12 {
+			keep = append(keep, h)
+		}
+	}
+	if len(keep) > 8 {
+		keep = keep[len(keep)-8:]
+	}
+	r.held = keep
+}
 
 func c12Show(tx module.Transaction) (string, []string) {
 	f, raw, ok := transaction.VerifC12Fields(tx)
@@ -130,16 +195,22 @@ func c12RoundTrips(o *Oracle, tx module.Transaction, f []string) {
 	}
 }
 
-func (c12Runner) Step(t []string, o *Oracle) string {
+func (r *c12Runner) Step(t []string, o *Oracle) string {
 	if len(t) < 2 {
 		return "bad-op"
 	}
 	switch t[0] {
 	case "tx":
 		js := unhx(t[1])
-		tx, err := transaction.NewTransactionFromJSON(js)
+		in := append([]byte{}, js...)
+		tx, err := transaction.NewTransactionFromJSON(in)
+		// the caller's buffer is the caller's: overwrite it after the call
+		for i := range in {
+			in[i] = '#'
+		}
 		if err != nil {
 			o.Count("tx-err")
+			r.recheck(o)
 			return "err"
 		}
 		line, f := c12Show(tx)
@@ -171,6 +242,8 @@ func (c12Runner) Step(t []string, o *Oracle) string {
 				o.Check(got == "rejected", "invalid-signature-accepted", "Verify passes without a valid sender signature: %s", js)
 			}
 		}
+		r.recheck(o)
+		r.hold(tx, f, "tx "+t[1][:16])
 		return line
 	case "bin":
 		tx, err := transaction.NewTransaction(unhx(t[1]))
@@ -181,6 +254,10 @@ func (c12Runner) Step(t []string, o *Oracle) string {
 		line, f := c12Show(tx)
 		if f != nil {
 			c12RoundTrips(o, tx, f)
+		}
+		r.recheck(o)
+		if f != nil {
+			r.hold(tx, f, "bin "+t[1][:16])
 		}
 		return line
 	case "ser":
@@ -202,7 +279,18 @@ func (c12Runner) Step(t []string, o *Oracle) string {
 			return "bad-op"
 		}
 		a, err1 := transaction.NewTransactionFromJSON(unhx(t[2]))
+		if err1 == nil {
+			if fa, _, ok := transaction.VerifC12Fields(a); ok {
+				r.hold(a, fa, "mut-a "+t[2][:16])
+			}
+		}
 		b, err2 := transaction.NewTransactionFromJSON(unhx(t[3]))
+		r.recheck(o)
+		if err2 == nil {
+			if fb, _, ok := transaction.VerifC12Fields(b); ok {
+				r.hold(b, fb, "mut-b "+t[3][:16])
+			}
+		}
 		if err1 != nil || err2 != nil {
 			o.Count("mut-err")
 			return "err"
